@@ -41,6 +41,7 @@ func (r *Recorder) append(e trace.Ev) int {
 
 // Step is one operation of a client script.
 type Step struct {
+	Via      Path   // optional: the client path of this step, if it differs from the script's
 	Op       string // put get del expire getput incr decr incrf lock unlock lease unlockforged leaseforged sleep
 	Key      string
 	Val      string
@@ -141,6 +142,9 @@ func ttlOf(o PutOpts, r *Recorder) (int, bool) {
 }
 
 func (r *Recorder) step(ctx context.Context, dm string, sc Script, st Step, slots map[int]*lockSlot) {
+	if st.Via != nil {
+		sc.Path = st.Via // this step goes through another client than the rest of the script (sc is a copy)
+	}
 	inv := trace.Ev{"t": "inv", "c": sc.Client, "k": st.Key, "path": sc.Path.Name(), "dttl": int(st.DTTL.Milliseconds())}
 	var rep Reply
 	if st.Op == "mdel" {
